@@ -76,40 +76,146 @@ theorem extG_cons (g : List (Nat × Val)) (f : Frame) (t : Ctx) :
 
 theorem addGlobal_eq_extG (n : Nat) (v : Val) (c : Ctx) : addGlobal n v c = extG [(n, v)] c := rfl
 
-/-- a plain operation on `f :: t` changes only the top frame (keeping its object) and adds globals below;
-    a name is added below only by an operation that is a global source for it -/
+/-! ## `dropLocalsL` and `shape` -/
+
+theorem dropLocalsL_length (ns : List Nat) (c : Ctx) : (dropLocalsL ns c).length = c.length := by
+  induction c with
+  | nil => rfl
+  | cons f t ih =>
+    cases t with
+    | nil => rfl
+    | cons a b => simp only [dropLocalsL, List.length_cons] at ih ⊢; omega
+
+theorem dropLocalsL_ne_nil (ns : List Nat) (c : Ctx) (h : c ≠ []) : dropLocalsL ns c ≠ [] := by
+  intro h'
+  have := dropLocalsL_length ns c
+  rw [h'] at this
+  cases c with
+  | nil => exact h rfl
+  | cons _ _ => simp at this
+
+theorem dropLocalsL_cons_ne (ns : List Nat) (f : Frame) (t : Ctx) (h : t ≠ []) :
+    dropLocalsL ns (f :: t) =
+      { f with macros := f.macros.filter (fun p => !ns.contains p.1) } :: dropLocalsL ns t := by
+  cases t with
+  | nil => exact absurd rfl h
+  | cons a b => rfl
+
+theorem dropLocalsL_nil (c : Ctx) : dropLocalsL [] c = c := by
+  induction c with
+  | nil => rfl
+  | cons f t ih =>
+    cases t with
+    | nil => rfl
+    | cons a b => rw [dropLocalsL_cons_ne [] f (a :: b) (by simp), ih]; cases f; simp
+
+theorem dropLocalsL_comp (a b : List Nat) (c : Ctx) :
+    dropLocalsL a (dropLocalsL b c) = dropLocalsL (a ++ b) c := by
+  induction c with
+  | nil => rfl
+  | cons f t ih =>
+    cases t with
+    | nil => rfl
+    | cons x y =>
+      rw [dropLocalsL_cons_ne b f (x :: y) (by simp), dropLocalsL_cons_ne (a ++ b) f (x :: y) (by simp),
+        dropLocalsL_cons_ne a _ _ (dropLocalsL_ne_nil b (x :: y) (by simp)), ih]
+      congr 1
+      simp only [List.filter_filter]
+      congr 2
+      funext p
+      simp [List.contains_append, Bool.and_comm]
+
+theorem dropLocalsL_extG (ns : List Nat) (g : List (Nat × Val)) (c : Ctx) :
+    dropLocalsL ns (extG g c) = extG g (dropLocalsL ns c) := by
+  induction c with
+  | nil => rfl
+  | cons f t ih =>
+    cases t with
+    | nil => rfl
+    | cons x y =>
+      rw [extG_cons_ne g f (x :: y) (by simp), dropLocalsL_cons_ne ns f (x :: y) (by simp),
+        dropLocalsL_cons_ne ns f _ (extG_ne_nil g (x :: y) (by simp)),
+        extG_cons_ne g _ _ (dropLocalsL_ne_nil ns (x :: y) (by simp)), ih]
+
+theorem shape_nil (c : Ctx) : shape [] [] c = c := by
+  rw [shape, dropLocalsL_nil, extG_nil]
+
+theorem shape_names_nil (g : List (Nat × Val)) (c : Ctx) : shape g [] c = extG g c := by
+  rw [shape, dropLocalsL_nil]
+
+theorem shape_length (g : List (Nat × Val)) (ns : List Nat) (c : Ctx) : (shape g ns c).length = c.length := by
+  rw [shape, extG_length, dropLocalsL_length]
+
+theorem shape_ne_nil (g : List (Nat × Val)) (ns : List Nat) (c : Ctx) (h : c ≠ []) : shape g ns c ≠ [] :=
+  extG_ne_nil g _ (dropLocalsL_ne_nil ns c h)
+
+theorem shape_shape (g1 g2 : List (Nat × Val)) (n1 n2 : List Nat) (c : Ctx) :
+    shape g2 n2 (shape g1 n1 c) = shape (g2 ++ g1) (n2 ++ n1) c := by
+  simp only [shape]
+  rw [dropLocalsL_extG, extG_extG, dropLocalsL_comp]
+
+/-- changing what is below a frame: the frame keeps its object, lets and categories -/
+theorem shape_cons (g : List (Nat × Val)) (ns : List Nat) (f : Frame) (t : Ctx) :
+    ∃ f1 g1 n1, shape g ns (f :: t) = f1 :: shape g1 n1 t ∧ f1.obj = f.obj ∧ f1.cats = f.cats ∧ f1.lets = f.lets ∧
+      (∀ x ∈ g1, x ∈ g) ∧ (∀ x ∈ n1, x ∈ ns) := by
+  cases t with
+  | nil =>
+    exact ⟨{ f with macros := g ++ f.macros }, [], [], by simp [shape, extG, modifyGlobal, dropLocalsL], rfl, rfl, rfl,
+      by simp, by simp⟩
+  | cons a b =>
+    refine ⟨{ f with macros := f.macros.filter (fun p => !ns.contains p.1) }, g, ns, ?_, rfl, rfl, rfl,
+      fun _ h => h, fun _ h => h⟩
+    rw [shape, dropLocalsL_cons_ne ns f (a :: b) (by simp),
+      extG_cons_ne g _ _ (dropLocalsL_ne_nil ns (a :: b) (by simp))]
+    rfl
+
+/-- a plain operation on `f :: t` changes only the top frame (keeping its object), adds globals below and
+    — for `\gdef` — drops the local bindings of the defined name below; a name is added to the global
+    frame only by an operation that is a global source for it -/
 theorem plain_step (o : Op) (ho : Op.plain o = true) (f : Frame) (t : Ctx) :
-    ∃ f' g, step (f :: t) o = f' :: extG g t ∧ f'.obj = f.obj ∧ ∀ x ∈ g, globalSource x.1 o = true := by
+    ∃ f' g ns, step (f :: t) o = f' :: shape g ns t ∧ f'.obj = f.obj ∧
+      (∀ x ∈ g, globalSource x.1 o = true) ∧ (∀ n ∈ ns, isGdef n o = true) := by
   have hadd : ∀ n v, ∃ f' g, addGlobal n v (f :: t) = f' :: extG g t ∧ f'.obj = f.obj ∧ ∀ x ∈ g, x = (n, v) := by
     intro n v
     rw [addGlobal_eq_extG]
     obtain ⟨f1, g1, h1, h2, _, _, h5⟩ := extG_cons [(n, v)] f t
     exact ⟨f1, g1, h1, h2, fun x hx => by simpa using h5 x hx⟩
+  have top : ∀ (f' : Frame), f'.obj = f.obj → ∃ f'' g ns, f' :: t = f'' :: shape g ns t ∧ f''.obj = f.obj ∧
+      (∀ x ∈ g, globalSource x.1 o = true) ∧ (∀ n ∈ ns, isGdef n o = true) := by
+    intro f' h
+    exact ⟨f', [], [], by rw [shape_nil], h, by simp, by simp⟩
   cases o with
   | push _ _ => simp [Op.plain] at ho
   | pop _ => simp [Op.plain] at ho
   | addGlobal n v =>
     obtain ⟨f', g, h1, h2, h3⟩ := hadd n v
-    exact ⟨f', g, h1, h2, fun x hx => by rw [h3 x hx]; simp [globalSource]⟩
-  | addLocal n v => exact ⟨{ f with macros := (n, v) :: f.macros }, [], by simp [step, addLocal, modifyTop, extG_nil], rfl, by simp⟩
-  | letTok d tk => exact ⟨{ f with lets := (d, tk) :: f.lets }, [], by simp [step, letTok, modifyTop, extG_nil], rfl, by simp⟩
-  | setCat ch k => exact ⟨{ f with cats := setCat f.cats ch k }, [], by simp [step, setCatCtx, modifyTop, extG_nil], rfl, by simp⟩
-  | setVerbatim => exact ⟨{ f with cats := verbatimCats }, [], by simp [step, setVerbatim, modifyTop, extG_nil], rfl, by simp⟩
+    exact ⟨f', g, [], by rw [shape_names_nil]; exact h1, h2, fun x hx => by rw [h3 x hx]; simp [globalSource], by simp⟩
+  | addLocal n v => exact top { f with macros := (n, v) :: f.macros } rfl
+  | letTok d tk => exact top { f with lets := (d, tk) :: f.lets } rfl
+  | setCat ch k => exact top { f with cats := setCat f.cats ch k } rfl
+  | setVerbatim => exact top { f with cats := verbatimCats } rfl
   | lookup n =>
     simp only [step, lookup]
     cases hf : find n (f :: t) with
-    | some v => exact ⟨f, [], by simp [extG_nil], rfl, by simp⟩
+    | some v => exact top f rfl
     | none =>
       obtain ⟨f', g, h1, h2, h3⟩ := hadd n (.unrec n)
-      exact ⟨f', g, h1, h2, fun x hx => by rw [h3 x hx]; simp [globalSource]⟩
+      exact ⟨f', g, [], by rw [shape_names_nil]; exact h1, h2, fun x hx => by rw [h3 x hx]; simp [globalSource], by simp⟩
   | letCs d s =>
     simp only [step, letCs, lookup]
     cases hf : find s (f :: t) with
-    | some v => exact ⟨{ f with macros := (d, v) :: f.macros }, [], by simp [addLocal, modifyTop, extG_nil], rfl, by simp⟩
+    | some v => exact top { f with macros := (d, v) :: f.macros } rfl
     | none =>
       obtain ⟨f', g, h1, h2, h3⟩ := hadd s (.unrec s)
       simp only [h1, addLocal, modifyTop]
-      exact ⟨{ f' with macros := (d, .unrec s) :: f'.macros }, g, rfl, h2, fun x hx => by rw [h3 x hx]; simp [globalSource]⟩
+      exact ⟨{ f' with macros := (d, .unrec s) :: f'.macros }, g, [], by rw [shape_names_nil], h2,
+        fun x hx => by rw [h3 x hx]; simp [globalSource], by simp⟩
+  | gdef n v =>
+    obtain ⟨f1, g1, n1, h1, h2, _, _, h5, h6⟩ := shape_cons [(n, v)] [n] f t
+    refine ⟨f1, g1, n1, ?_, h2, ?_, ?_⟩
+    · simp only [step, defGlobal, addGlobal_eq_extG]; exact h1
+    · intro x hx; have := h5 x hx; simp at this; rw [this]; simp [globalSource]
+    · intro m hm; have := h6 m hm; simp at this; rw [this]; simp [isGdef]
 
 theorem run_append (a b : List Op) (c : Ctx) : run (a ++ b) c = run b (run a c) := by
   simp [run, List.foldl_append]
@@ -150,39 +256,51 @@ theorem push_notDoc (o : Option ObjRef) (l : List (Nat × Val)) (c : Ctx) (h : n
   | none => rfl
   | some r => simp [notDoc] at h; simp [push, h]
 
-/-- **frame invariant**: a balanced history run on `f :: t` leaves `t` untouched except for
-    definitions added to the global frame, keeps the depth, and keeps the top frame's object;
-    every name added to the global frame has a global-source operation in the history -/
+/-- **frame invariant**: a balanced history run on `f :: t` leaves `t` untouched except for definitions
+    added to the global frame and the local bindings of `\gdef`-ed names dropped at every level; it keeps the
+    depth and the top frame's object; every name added to the global frame has a global-source operation
+    in the history, every dropped name a `\gdef` -/
 theorem balanced_frame {ops : List Op} (hb : Balanced ops) :
-    ∀ (f : Frame) (t : Ctx), ∃ f' g, run ops (f :: t) = f' :: extG g t ∧ f'.obj = f.obj ∧
-      ∀ x ∈ g, ∃ op ∈ ops, globalSource x.1 op = true := by
+    ∀ (f : Frame) (t : Ctx), ∃ f' g ns, run ops (f :: t) = f' :: shape g ns t ∧ f'.obj = f.obj ∧
+      (∀ x ∈ g, ∃ op ∈ ops, globalSource x.1 op = true) ∧ (∀ n ∈ ns, ∃ op ∈ ops, isGdef n op = true) := by
   induction hb with
-  | nil => intro f t; exact ⟨f, [], by simp [run, extG_nil], rfl, by simp⟩
+  | nil => intro f t; exact ⟨f, [], [], by simp [run, shape_nil], rfl, by simp, by simp⟩
   | op o rest ho _ ih =>
     intro f t
-    obtain ⟨f1, g1, h1, e1, s1⟩ := plain_step o ho f t
-    obtain ⟨f2, g2, h2, e2, s2⟩ := ih f1 (extG g1 t)
-    refine ⟨f2, g2 ++ g1, ?_, e2.trans e1, ?_⟩
-    · rw [run_cons, h1, h2, extG_extG]
+    obtain ⟨f1, g1, n1, h1, e1, s1, d1⟩ := plain_step o ho f t
+    obtain ⟨f2, g2, n2, h2, e2, s2, d2⟩ := ih f1 (shape g1 n1 t)
+    refine ⟨f2, g2 ++ g1, n2 ++ n1, ?_, e2.trans e1, ?_, ?_⟩
+    · rw [run_cons, h1, h2, shape_shape]
     · intro x hx
       rcases List.mem_append.mp hx with h | h
       · obtain ⟨op, hop, hs⟩ := s2 x h
         exact ⟨op, List.mem_cons_of_mem _ hop, hs⟩
       · exact ⟨o, List.mem_cons_self, s1 x h⟩
+    · intro x hx
+      rcases List.mem_append.mp hx with h | h
+      · obtain ⟨op, hop, hs⟩ := d2 x h
+        exact ⟨op, List.mem_cons_of_mem _ hop, hs⟩
+      · exact ⟨o, List.mem_cons_self, d1 x h⟩
   | group o o' locals body rest hnd hcl _ _ ihb ihr =>
     intro f t
-    obtain ⟨fb, gb, hb1, eb, sb⟩ := ihb { macros := locals, lets := [], cats := cats (f :: t), obj := o } (f :: t)
-    obtain ⟨f1, g1, h1, e1, _, _, sub1⟩ := extG_cons gb f t
-    obtain ⟨f2, g2, h2, e2, s2⟩ := ihr f1 (extG g1 t)
-    refine ⟨f2, g2 ++ g1, ?_, e2.trans e1, ?_⟩
+    obtain ⟨fb, gb, nb, hb1, eb, sb, db⟩ := ihb { macros := locals, lets := [], cats := cats (f :: t), obj := o } (f :: t)
+    obtain ⟨f1, g1, n1, h1, e1, _, _, sub1, subn⟩ := shape_cons gb nb f t
+    obtain ⟨f2, g2, n2, h2, e2, s2, d2⟩ := ihr f1 (shape g1 n1 t)
+    refine ⟨f2, g2 ++ g1, n2 ++ n1, ?_, e2.trans e1, ?_, ?_⟩
     · rw [run_cons, run_append, run_cons]
       simp only [step]
-      rw [push_notDoc o locals (f :: t) hnd, hb1, pop_own_frame o o' fb _ eb hcl (by rw [h1]; simp), h1, h2, extG_extG]
+      rw [push_notDoc o locals (f :: t) hnd, hb1, pop_own_frame o o' fb _ eb hcl (by rw [h1]; simp), h1, h2, shape_shape]
     · intro x hx
       rcases List.mem_append.mp hx with h | h
       · obtain ⟨op, hop, hs⟩ := s2 x h
         exact ⟨op, by simp [hop], hs⟩
       · obtain ⟨op, hop, hs⟩ := sb x (sub1 x h)
+        exact ⟨op, by simp [hop], hs⟩
+    · intro x hx
+      rcases List.mem_append.mp hx with h | h
+      · obtain ⟨op, hop, hs⟩ := d2 x h
+        exact ⟨op, by simp [hop], hs⟩
+      · obtain ⟨op, hop, hs⟩ := db x (subn x h)
         exact ⟨op, by simp [hop], hs⟩
 
 /-! ## what `extG` does and does not change -/
@@ -308,12 +426,116 @@ theorem findGlobal_addGlobal_other (n m : Nat) (v : Val) (c : Ctx) (h : m ≠ n)
 
 
 
+theorem cats_dropLocalsL (ns : List Nat) (c : Ctx) : cats (dropLocalsL ns c) = cats c := by
+  cases c with
+  | nil => rfl
+  | cons f t =>
+    cases t with
+    | nil => rfl
+    | cons a b => rfl
+
+theorem getLet_dropLocalsL (n : Nat) (ns : List Nat) (c : Ctx) : getLet n (dropLocalsL ns c) = getLet n c := by
+  induction c with
+  | nil => rfl
+  | cons f t ih =>
+    cases t with
+    | nil => rfl
+    | cons a b =>
+      rw [dropLocalsL_cons_ne ns f (a :: b) (by simp)]
+      show (match f.lets.lookup n with | some v => some v | none => getLet n (dropLocalsL ns (a :: b))) = (match f.lets.lookup n with | some v => some v | none => getLet n (a :: b))
+      rw [ih]
+
+theorem lookup_cons (n a : Nat) (b : Val) (l : List (Nat × Val)) :
+    List.lookup n ((a, b) :: l) = if n == a then some b else List.lookup n l := by
+  simp only [List.lookup]
+  cases (n == a) <;> rfl
+
+theorem lookup_filter_other (n : Nat) (ns : List Nat) (hn : n ∉ ns) (l : List (Nat × Val)) :
+    (l.filter (fun p => !ns.contains p.1)).lookup n = l.lookup n := by
+  induction l with
+  | nil => rfl
+  | cons x l ih =>
+    obtain ⟨a, b⟩ := x
+    rw [List.filter_cons]
+    by_cases hc : (!ns.contains a) = true
+    · rw [if_pos hc, lookup_cons, lookup_cons, ih]
+    · rw [if_neg hc, lookup_cons, ih]
+      have hmem : a ∈ ns := by simpa using hc
+      have hne : (n == a) = false := by
+        rw [beq_eq_false_iff_ne]
+        intro e; subst e; exact hn hmem
+      rw [hne]; rfl
+
+theorem lookup_filter_self (n : Nat) (l : List (Nat × Val)) :
+    (l.filter (fun p => ![n].contains p.1)).lookup n = none := by
+  induction l with
+  | nil => rfl
+  | cons x l ih =>
+    obtain ⟨a, b⟩ := x
+    rw [List.filter_cons]
+    by_cases ha : a = n
+    · have hc : ¬ (![n].contains a) = true := by subst ha; simp
+      rw [if_neg hc]; exact ih
+    · have hc : (![n].contains a) = true := by simp [ha]
+      have hne : (n == a) = false := by
+        rw [beq_eq_false_iff_ne]; exact fun e => ha e.symm
+      rw [if_pos hc, lookup_cons, hne, ih]; rfl
+
+/-- a name that was not `\gdef`-ed keeps its bindings at every level -/
+theorem find_dropLocalsL (n : Nat) (ns : List Nat) (hn : n ∉ ns) (c : Ctx) : find n (dropLocalsL ns c) = find n c := by
+  induction c with
+  | nil => rfl
+  | cons f t ih =>
+    cases t with
+    | nil => rfl
+    | cons a b =>
+      rw [dropLocalsL_cons_ne ns f (a :: b) (by simp)]
+      show (match (f.macros.filter (fun p => !ns.contains p.1)).lookup n with | some v => some v | none => find n (dropLocalsL ns (a :: b))) = (match f.macros.lookup n with | some v => some v | none => find n (a :: b))
+      rw [lookup_filter_other n ns hn, ih]
+
+theorem cats_shape (g : List (Nat × Val)) (ns : List Nat) (c : Ctx) : cats (shape g ns c) = cats c := by
+  rw [shape, cats_extG, cats_dropLocalsL]
+
+theorem getLet_shape (n : Nat) (g : List (Nat × Val)) (ns : List Nat) (c : Ctx) : getLet n (shape g ns c) = getLet n c := by
+  rw [shape, getLet_extG, getLet_dropLocalsL]
+
+theorem find_shape (n : Nat) (g : List (Nat × Val)) (ns : List Nat) (c : Ctx) (hg : ∀ x ∈ g, x.1 ≠ n) (hn : n ∉ ns) :
+    find n (shape g ns c) = find n c := by
+  rw [shape, find_extG n g _ hg, find_dropLocalsL n ns hn]
+
+theorem findGlobal_dropLocalsL (n : Nat) (ns : List Nat) (c : Ctx) : findGlobal n (dropLocalsL ns c) = findGlobal n c := by
+  induction c with
+  | nil => rfl
+  | cons f t ih =>
+    cases t with
+    | nil => rfl
+    | cons a b =>
+      rw [dropLocalsL_cons_ne ns f (a :: b) (by simp), findGlobal_cons_ne n _ _ (dropLocalsL_ne_nil ns (a :: b) (by simp)), ih]
+      rfl
+
+/-- after `\gdef\n` the name means the new definition at every level -/
+theorem find_defGlobal (n : Nat) (v : Val) (c : Ctx) (h : c ≠ []) : find n (defGlobal n v c) = some v := by
+  unfold defGlobal
+  induction c with
+  | nil => exact absurd rfl h
+  | cons f t ih =>
+    cases t with
+    | nil => simp [dropLocalsL, addGlobal, modifyGlobal, find, List.lookup]
+    | cons a b =>
+      rw [dropLocalsL_cons_ne [n] f (a :: b) (by simp), addGlobal,
+        modifyGlobal_cons_ne _ _ _ (dropLocalsL_ne_nil [n] (a :: b) (by simp))]
+      have hl := lookup_filter_self n f.macros
+      show (match (f.macros.filter (fun p => ![n].contains p.1)).lookup n with | some v => some v | none => find n _) = some v
+      rw [hl]
+      exact ih (by simp)
+
 /-- `op` writes (or may write) a binding for `n` somewhere -/
 def touches (n : Nat) : Op → Bool
   | .addGlobal m _ => m == n
   | .addLocal m _ => m == n
   | .lookup m => m == n
   | .letCs d s => d == n || s == n
+  | .gdef m _ => m == n
   | _ => false
 
 theorem popNone_ne_nil (c : Ctx) (h : c ≠ []) : popNone c ≠ [] := by
@@ -372,6 +594,7 @@ theorem step_ne_nil (c : Ctx) (op : Op) (h : c ≠ []) : step c op ≠ [] := by
     split
     · exact h
     · exact modifyGlobal_ne_nil _ c h
+  | gdef n v => exact modifyGlobal_ne_nil _ _ (dropLocalsL_ne_nil [n] c h)
 
 theorem findGlobal_step (n : Nat) (c : Ctx) (op : Op) (h : c ≠ []) (ht : touches n op = false) :
     findGlobal n (step c op) = findGlobal n c := by
@@ -413,6 +636,10 @@ theorem findGlobal_step (n : Nat) (c : Ctx) (op : Op) (h : c ≠ []) (ht : touch
     · simp only [addLocal]
       rw [findGlobal_modifyTop_macros n _ _ (fun f => by simp [List.lookup, hd])]
       exact findGlobal_addGlobal_other n s _ c ht.2
+  | gdef m v =>
+    simp [touches] at ht
+    simp only [step, defGlobal]
+    rw [findGlobal_addGlobal_other n m v _ ht, findGlobal_dropLocalsL]
 
 theorem findGlobal_run (n : Nat) (ops : List Op) : ∀ (c : Ctx), c ≠ [] → (∀ op ∈ ops, touches n op = false) →
     findGlobal n (run ops c) = findGlobal n c := by
